@@ -424,6 +424,10 @@ func Eq(a, b *Term) *Term {
 			return Not(a)
 		}
 	}
+	// canonical argument order for the commutative equality
+	if !a.IsConst() && !b.IsConst() && a.Hash() > b.Hash() {
+		a, b = b, a
+	}
 	// eq(ite(c,k1,k2), k) with constants: push inside
 	if b.IsConst() && a.Op == "ite" && (a.Args[1].IsConst() || a.Args[2].IsConst()) {
 		return Or(And(a.Args[0], Eq(a.Args[1], b)), And(Not(a.Args[0]), Eq(a.Args[2], b)))
